@@ -63,84 +63,90 @@ theorem evalArgs_laterPure (W : World) : ∀ (es : Ir.Exprs) (ps : List (Dir × 
           simp [hr] at h
           rw [← h.2]; exact e2
 
-/-- the typed evaluation of an accepted argument list: values for `in`, variables elsewhere; the variables are outside
-`rsv`, and (the later `in` arguments being pure) still hold the value that was copied in when the list is done -/
-theorem evalArgs_facts (W : World) (rsv : List Var) : ∀ (es : Ir.Exprs) (ps : List (Dir × Ty)) (σ : Store) l σ1,
-    Ir.evalArgs W es ps σ = some (l, σ1) → Ir.refArgsOK rsv es ps = true →
-    fitsB ps l = true ∧ ∀ p ∈ l, ∀ x, p.2 = some x → rsv.contains x = false ∧ σ1 x = p.1
-  | .nil, [], σ, l, σ1, h, _ => by
+/-- the typed evaluation of an accepted argument list: values for `in`, variables (of the parameter's type) elsewhere;
+the variables are outside `rsv`, and (the later `in` arguments being pure) still hold the value that was copied in when
+the list is done -/
+theorem evalArgs_facts (W : World) (vty : Var → Ty) (rsv : List Var) : ∀ (es : Ir.Exprs) (ps : List (Dir × Ty)) (σ : Store) l σ1,
+    Ir.evalArgs W es ps σ = some (l, σ1) → Ir.refArgsOK rsv es ps = true → Ir.argsOK W.sig vty es ps = true →
+    fitsB vty ps l = true ∧ ∀ p ∈ l, ∀ x, p.2 = some x → rsv.contains x = false ∧ σ1 x = p.1
+  | .nil, [], σ, l, σ1, h, _, _ => by
     simp [Ir.evalArgs] at h; obtain ⟨rfl, rfl⟩ := h; simp [fitsB]
-  | .nil, _ :: _, σ, l, σ1, h, _ => by simp [Ir.evalArgs] at h
-  | .cons _ _, [], σ, l, σ1, h, _ => by simp [Ir.evalArgs] at h
-  | .cons e r, (d, T) :: ps, σ, l, σ1, h, hok => by
+  | .nil, _ :: _, σ, l, σ1, h, _, _ => by simp [Ir.evalArgs] at h
+  | .cons _ _, [], σ, l, σ1, h, _, _ => by simp [Ir.evalArgs] at h
+  | .cons e r, (d, T) :: ps, σ, l, σ1, h, hok, hty => by
     simp only [Ir.refArgsOK, Bool.and_eq_true] at hok
-    cases d with
-    | in_ =>
-      simp only [Ir.evalArgs] at h
-      cases he : Ir.eval W e σ with
-      | none => simp [he] at h
-      | some r1 =>
-        obtain ⟨v1, σa⟩ := r1
-        simp only [he] at h
-        cases hr : Ir.evalArgs W r ps σa with
-        | none => simp [hr] at h
-        | some r2 =>
-          obtain ⟨l2, σ2⟩ := r2
-          simp [hr] at h
-          obtain ⟨rfl, rfl⟩ := h
-          obtain ⟨f1, f2⟩ := evalArgs_facts W rsv r ps σa l2 σ2 hr hok.2
-          refine ⟨by simp [fitsB, f1], ?_⟩
-          intro p hp x hx
-          simp only [List.mem_cons] at hp
-          cases hp with
-          | inl h0 => subst h0; simp at hx
-          | inr h0 => exact f2 p h0 x hx
-    | out =>
-      simp only [Ir.evalArgs] at h
-      cases hl : Ir.lvalOf e with
-      | none => simp [hl] at h
-      | some x0 =>
-        simp only [hl] at h
-        simp only [hl, Bool.and_eq_true, Bool.not_eq_true', reduceCtorEq, if_false] at hok
-        cases hr : Ir.evalArgs W r ps σ with
-        | none => simp [hr] at h
-        | some r2 =>
-          obtain ⟨l2, σ2⟩ := r2
-          simp [hr] at h
-          obtain ⟨rfl, rfl⟩ := h
-          obtain ⟨f1, f2⟩ := evalArgs_facts W rsv r ps σ l2 σ2 hr hok.2
-          have hs := evalArgs_laterPure W r ps σ l2 σ2 hr hok.1.2
-          refine ⟨by simp [fitsB, f1], ?_⟩
-          intro p hp x hx
-          simp only [List.mem_cons] at hp
-          cases hp with
-          | inl h0 =>
-            subst h0; simp at hx; subst hx
-            exact ⟨hok.1.1, by rw [hs]⟩
-          | inr h0 => exact f2 p h0 x hx
-    | inout =>
-      simp only [Ir.evalArgs] at h
-      cases hl : Ir.lvalOf e with
-      | none => simp [hl] at h
-      | some x0 =>
-        simp only [hl] at h
-        simp only [hl, Bool.and_eq_true, Bool.not_eq_true', reduceCtorEq, if_false] at hok
-        cases hr : Ir.evalArgs W r ps σ with
-        | none => simp [hr] at h
-        | some r2 =>
-          obtain ⟨l2, σ2⟩ := r2
-          simp [hr] at h
-          obtain ⟨rfl, rfl⟩ := h
-          obtain ⟨f1, f2⟩ := evalArgs_facts W rsv r ps σ l2 σ2 hr hok.2
-          have hs := evalArgs_laterPure W r ps σ l2 σ2 hr hok.1.2
-          refine ⟨by simp [fitsB, f1], ?_⟩
-          intro p hp x hx
-          simp only [List.mem_cons] at hp
-          cases hp with
-          | inl h0 =>
-            subst h0; simp at hx; subst hx
-            exact ⟨hok.1.1, by rw [hs]⟩
-          | inr h0 => exact f2 p h0 x hx
+    cases hte : Ir.typeOf W.sig vty e with
+    | none => simp [Ir.argsOK, hte] at hty
+    | some te =>
+      simp only [Ir.argsOK, hte, Bool.and_eq_true, decide_eq_true_eq] at hty
+      obtain ⟨⟨rfl, _⟩, hty'⟩ := hty
+      cases d with
+      | in_ =>
+        simp only [Ir.evalArgs] at h
+        cases he : Ir.eval W e σ with
+        | none => simp [he] at h
+        | some r1 =>
+          obtain ⟨v1, σa⟩ := r1
+          simp only [he] at h
+          cases hr : Ir.evalArgs W r ps σa with
+          | none => simp [hr] at h
+          | some r2 =>
+            obtain ⟨l2, σ2⟩ := r2
+            simp [hr] at h
+            obtain ⟨rfl, rfl⟩ := h
+            obtain ⟨f1, f2⟩ := evalArgs_facts W vty rsv r ps σa l2 σ2 hr hok.2 hty'
+            refine ⟨by simp [fitsB, f1], ?_⟩
+            intro p hp x hx
+            simp only [List.mem_cons] at hp
+            cases hp with
+            | inl h0 => subst h0; simp at hx
+            | inr h0 => exact f2 p h0 x hx
+      | out =>
+        simp only [Ir.evalArgs] at h
+        cases hl : Ir.lvalOf e with
+        | none => simp [hl] at h
+        | some x0 =>
+          simp only [hl] at h
+          simp only [hl, Bool.and_eq_true, Bool.not_eq_true', reduceCtorEq, if_false] at hok
+          cases hr : Ir.evalArgs W r ps σ with
+          | none => simp [hr] at h
+          | some r2 =>
+            obtain ⟨l2, σ2⟩ := r2
+            simp [hr] at h
+            obtain ⟨rfl, rfl⟩ := h
+            obtain ⟨f1, f2⟩ := evalArgs_facts W vty rsv r ps σ l2 σ2 hr hok.2 hty'
+            have hs := evalArgs_laterPure W r ps σ l2 σ2 hr hok.1.2
+            refine ⟨by simp [fitsB, f1, (lval_tyM hte hl).1], ?_⟩
+            intro p hp x hx
+            simp only [List.mem_cons] at hp
+            cases hp with
+            | inl h0 =>
+              subst h0; simp at hx; subst hx
+              exact ⟨hok.1.1, by rw [hs]⟩
+            | inr h0 => exact f2 p h0 x hx
+      | inout =>
+        simp only [Ir.evalArgs] at h
+        cases hl : Ir.lvalOf e with
+        | none => simp [hl] at h
+        | some x0 =>
+          simp only [hl] at h
+          simp only [hl, Bool.and_eq_true, Bool.not_eq_true', reduceCtorEq, if_false] at hok
+          cases hr : Ir.evalArgs W r ps σ with
+          | none => simp [hr] at h
+          | some r2 =>
+            obtain ⟨l2, σ2⟩ := r2
+            simp [hr] at h
+            obtain ⟨rfl, rfl⟩ := h
+            obtain ⟨f1, f2⟩ := evalArgs_facts W vty rsv r ps σ l2 σ2 hr hok.2 hty'
+            have hs := evalArgs_laterPure W r ps σ l2 σ2 hr hok.1.2
+            refine ⟨by simp [fitsB, f1, (lval_tyM hte hl).1], ?_⟩
+            intro p hp x hx
+            simp only [List.mem_cons] at hp
+            cases hp with
+            | inl h0 =>
+              subst h0; simp at hx; subst hx
+              exact ⟨hok.1.1, by rw [hs]⟩
+            | inr h0 => exact f2 p h0 x hx
 
 /-- the arguments `append_arguments_for_globals` pushes evaluate, without effect, to references to the statics -/
 theorem globalArgs_eval' {M : Msl.MWorld} {env : Ast.Env} {cx : Ctx} (hvty : env.vty = cx.vty) :
